@@ -7,6 +7,7 @@ import (
 	"go/token"
 	"go/types"
 	"strings"
+	"time"
 
 	"verif/engine/smt"
 )
@@ -140,6 +141,7 @@ type Path struct {
 	inExists    bool
 	actor       int
 	foot        *footprint
+	deadline    time.Time // wall budget of the harness: past it queries are answered unknown without asking
 	blobs       []gobBlob
 	digests     []digestRec
 	funcs       map[string]bool
@@ -332,6 +334,11 @@ func (p *Path) query(extra *smt.Term) (smt.Result, smt.Model) {
 		}
 	}
 	m := smt.Model{}
+	if !p.deadline.IsZero() && time.Now().After(p.deadline) {
+		// the harness's wall budget is spent: the run is inconclusive anyway, do not start
+		// another (possibly minutes-long) solver call on this path
+		return smt.Unknown, m
+	}
 	p.stats.SolverQueries++
 	r := p.solver.CheckQuery(asserts, m)
 	return r, m
